@@ -39,6 +39,8 @@ def expr(rng, d=0):
         lambda: "%s?.%s(%s)?.%s(%s)" % (par(rng.choice(RECV)), rng.choice(METHODS), rng.choice(ARGS), rng.choice(METHODS), rng.choice(ARGS)),
         lambda: "%s.prototype.%s.call(%s%s)" % (rng.choice(["String", "P"]), rng.choice(METHODS[:7]), rng.choice(RECV), rng.choice(["", ", " + rng.choice(ARGS[1:])])),
         lambda: "%s.prototype.%s.apply(%s, %s)" % (rng.choice(["String", "P"]), rng.choice(METHODS[:7]), rng.choice(RECV), rng.choice(ARRS)),
+        lambda: "%s.prototype.%s.apply(%s, %s, %s)" % (rng.choice(["String", "P"]), rng.choice(METHODS[:7]), rng.choice(RECV), rng.choice(ARRS[:8]), sub()),
+        lambda: "%s.prototype.%s.apply(%s, %s, %s, %s)" % (rng.choice(["String", "P"]), rng.choice(METHODS[:7]), rng.choice(RECV), rng.choice(ARRS[:8]), sub(), sub()),
         lambda: "''.%s.%s(%s, %s)" % (rng.choice(METHODS[:7]), rng.choice(["call", "apply"]), rng.choice(RECV), rng.choice(ARRS)),
         lambda: "aloneMethod(%s)" % rng.choice(ARGS),
         lambda: "%s.trim(%s).concat(%s)" % (par(rng.choice(RECV)), rng.choice(ARGS[:3]), rng.choice(ARGS)),
